@@ -84,6 +84,7 @@ func (s *State) get() State {
 }
 
 func (s *State) set(update State) {
+	util.VerifYield("cb.state.set")
 	atomic.StoreInt32((*int32)(s), int32(update))
 }
 
